@@ -127,8 +127,16 @@ def random_streams(rng: random.Random) -> tuple[list[list[dict]], int, dict]:
     n_ids = rng.randint(1, 12)
     parents: dict[str, str | None] = {}
     ids = []
+    # span ids are opaque strings: a third of the streams use ids that differ only in letter
+    # case (hex ids as upper/lower case), or carry blanks, quotes, wildcards
+    style = rng.choice(["plain", "plain", "plain", "case-twins", "hostile"])
     for i in range(n_ids):
         eid = f"{chr(97 + i % 3)}{i}"
+        if style == "case-twins":
+            eid = f"3fa9c{i // 2:x}d2" if i % 2 == 0 else f"3FA9C{i // 2:X}D2"
+        elif style == "hostile":
+            eid = ["a 0", "a%0", "a_0", "A 0", "a'0", 'a"0', "a,0", "a;0", " a0", "a0 ", "é0",
+                   "a*0"][i]
         parents[eid] = None if not ids or rng.random() < 0.15 else rng.choice(ids)
         ids.append(eid)
     runs = 1 if rng.random() < 0.6 else 2
@@ -162,7 +170,7 @@ def random_streams(rng: random.Random) -> tuple[list[list[dict]], int, dict]:
         streams.append(stream)
     total = sum(len(s) for s in streams)
     b = rng.choice([1, 2, 3, rng.randint(1, total + 1), total, total + 1, 1000])
-    return streams, b, {"dups": n_dups, "runs": runs}
+    return streams, b, {"dups": n_dups, "runs": runs, "id_style": style}
 
 
 def large_streams(rng: random.Random) -> tuple[list[list[dict]], int, dict]:
